@@ -111,6 +111,15 @@ func typeName(t types.Type) string {
 	return sanitize(t.String())
 }
 
+// byteArray reports fixed-size arrays of bytes.
+func byteArray(a *types.Array) (int64, bool) {
+	b, ok := a.Elem().Underlying().(*types.Basic)
+	if ok && (b.Kind() == types.Uint8) {
+		return a.Len(), true
+	}
+	return 0, false
+}
+
 func isInteger(t types.Type) bool {
 	b, ok := t.Underlying().(*types.Basic)
 	return ok && b.Info()&types.IsInteger != 0
@@ -240,6 +249,23 @@ func (s *Sorts) SortOf(t types.Type) string {
 	case *types.Slice:
 		return fmt.Sprintf("(Slice %s)", s.SortOf(u.Elem()))
 	case *types.Array:
+		if n, ok := byteArray(u); ok {
+			// fixed byte arrays (hashes, keys, signatures) are opaque values with an element accessor:
+			// they are used as map keys and compared for equality, which array sorts handle badly
+			srt := fmt.Sprintf("ArrB%d", n)
+			if !s.declared[srt] {
+				s.declare(srt, fmt.Sprintf("(declare-sort %s 0)", srt))
+				s.declare("at_"+srt, fmt.Sprintf("(declare-fun at_%s (%s Int) Int)", srt, srt))
+				s.declare("zero_"+srt, fmt.Sprintf("(declare-const zero_%s %s)", srt, srt))
+				s.decls = append(s.decls, fmt.Sprintf("(assert (forall ((i!c Int)) (! (= (at_%s zero_%s i!c) 0) :pattern ((at_%s zero_%s i!c)))))", srt, srt, srt, srt))
+				s.decls = append(s.decls, fmt.Sprintf("(assert (forall ((a!c %s) (b!c %s)) (=> (forall ((i!c Int)) (=> (and (<= 0 i!c) (< i!c %d)) (= (at_%s a!c i!c) (at_%s b!c i!c)))) (= a!c b!c))))", srt, srt, n, srt, srt))
+				s.decls = append(s.decls, fmt.Sprintf("(assert (forall ((a!c %s) (i!c Int)) (! (and (<= 0 (at_%s a!c i!c)) (<= (at_%s a!c i!c) 255)) :pattern ((at_%s a!c i!c)))))", srt, srt, srt, srt))
+				s.declare("slice_"+srt, fmt.Sprintf("(declare-fun slice_%s (%s) (Slice Int))", srt, srt))
+				s.decls = append(s.decls, fmt.Sprintf("(assert (forall ((a!c %s)) (! (and (= (s_len (slice_%s a!c)) %d) (not (s_nil (slice_%s a!c)))) :pattern ((slice_%s a!c)))))", srt, srt, n, srt, srt))
+				s.decls = append(s.decls, fmt.Sprintf("(assert (forall ((a!c %s) (b!c %s)) (! (=> (= (slice_%s a!c) (slice_%s b!c)) (= a!c b!c)) :pattern ((slice_%s a!c) (slice_%s b!c)))))", srt, srt, srt, srt, srt, srt))
+			}
+			return srt
+		}
 		return fmt.Sprintf("(Array Int %s)", s.SortOf(u.Elem()))
 	case *types.Map:
 		return fmt.Sprintf("(Map %s %s)", s.SortOf(u.Key()), s.SortOf(u.Elem()))
@@ -365,6 +391,9 @@ func (s *Sorts) Zero(t types.Type) string {
 		el := s.SortOf(u.Elem())
 		return fmt.Sprintf("(mk_slice %s 0 true)", s.constArr("Int", el, s.Zero(u.Elem())))
 	case *types.Array:
+		if _, ok := byteArray(u); ok {
+			return "zero_" + srt
+		}
 		return s.constArr("Int", s.SortOf(u.Elem()), s.Zero(u.Elem()))
 	case *types.Map:
 		k, v := s.SortOf(u.Key()), s.SortOf(u.Elem())
